@@ -52,6 +52,14 @@ def cases(seed, tier):
         ticks = []
         for t in range(nticks):
             ops = []
+            if t > 0 and rels and rng.random() < 0.3:
+                # the processes of a cgroup exit on their own (its directory stays): a victim chosen as populated may be empty
+                # when its hook is through, and the walk moves on to the next candidate - which gets its own hook first
+                r = rng.choice(rels)
+                if not info[r]["children"]:
+                    ops += [{"op": "write", "cg": r, "file": "cgroup.procs", "text": ""},
+                            {"op": "write", "cg": r, "file": "cgroup.events", "text": "populated 0\nfrozen 0\n"},
+                            {"op": "write", "cg": r, "file": "pids.current", "text": "0\n"}]
             if t > 0 and rels and rng.random() < 0.35:
                 r = rng.choice(rels)
                 ops.append({"op": "rm", "cg": r})
